@@ -249,9 +249,17 @@ func (x *Explorer) runFrom(b0 *cfg.Block, firstNode int, init *State) {
 		for i := start; i < len(n.b.Nodes); i++ {
 			states = x.node(n.b.Nodes[i], states)
 		}
+		clearTemps := func(st *State) {
+			for k := range st.Facts {
+				if strings.HasPrefix(k, "@") {
+					delete(st.Facts, k)
+				}
+			}
+		}
 		switch len(n.b.Succs) {
 		case 0:
 			for _, st := range states {
+				clearTemps(st)
 				ex := Exit{Block: n.b, State: st, Trail: trail(n)}
 				if r := n.b.Return(); r != nil {
 					ex.Kind, ex.Ret = ExitReturn, r
@@ -262,22 +270,26 @@ func (x *Explorer) runFrom(b0 *cfg.Block, firstNode int, init *State) {
 			}
 		case 1:
 			for _, st := range states {
+				clearTemps(st)
 				work = append(work, &xnode{b: n.b.Succs[0], st: st, parent: n})
 			}
 		case 2:
 			cond := x.blockCond(n.b)
 			for _, st := range states {
 				if cond == nil {
+					clearTemps(st)
 					work = append(work, &xnode{b: n.b.Succs[0], st: st.Clone(), parent: n})
 					work = append(work, &xnode{b: n.b.Succs[1], st: st, parent: n})
 					continue
 				}
 				t := st.Clone()
 				if x.Assume(cond, true, t) {
+					clearTemps(t)
 					work = append(work, &xnode{b: n.b.Succs[0], st: t, parent: n, label: fmt.Sprintf("L%d: %s", x.P.Line(cond.Pos()), Str(cond))})
 				}
 				f := st
 				if x.Assume(cond, false, f) {
+					clearTemps(f)
 					work = append(work, &xnode{b: n.b.Succs[1], st: f, parent: n, label: fmt.Sprintf("L%d: !(%s)", x.P.Line(cond.Pos()), Str(cond))})
 				}
 			}
@@ -452,11 +464,17 @@ func (x *Explorer) expr(e ast.Expr, states []*State) []*State {
 			states = x.expr(e.X, states)
 			var out []*State
 			for _, st := range states {
+				// the outcome of the left operand is remembered for the rest of this block even when it is
+				// not a pure expression (a call), so that the branch on the whole condition stays consistent
+				// with which operands were evaluated
+				tmp := fmt.Sprintf("@%d:%d", Unparen(e.X).Pos(), Unparen(e.X).End())
 				skip := st.Clone() // right operand not evaluated
 				if x.Assume(e.X, e.Op == token.LOR, skip) {
+					skip.Facts[tmp] = e.Op == token.LOR
 					out = append(out, skip)
 				}
 				if x.Assume(e.X, e.Op == token.LAND, st) {
+					st.Facts[tmp] = e.Op == token.LAND
 					out = append(out, x.expr(e.Y, []*State{st})...)
 				}
 			}
@@ -759,6 +777,9 @@ func (x *Explorer) constEq(e ast.Expr) (string, string, bool, bool) {
 // Eval evaluates a condition under the facts of st.
 func (x *Explorer) Eval(e ast.Expr, st *State) tri {
 	e = Unparen(e)
+	if v, ok := st.Facts[fmt.Sprintf("@%d:%d", e.Pos(), e.End())]; ok && e.Pos().IsValid() {
+		return fromBool(v)
+	}
 	if tv, ok := x.Fn.Info().Types[e]; ok && tv.Value != nil && tv.Value.Kind() == constant.Bool {
 		return fromBool(constant.BoolVal(tv.Value))
 	}
